@@ -22,10 +22,12 @@
 (***************************************************************************)
 EXTENDS Integers
 
-VARIABLES Len0, Want0,        \* parameters of the call (never change)
-          arr, lo, hi, want, pc, ret
-vars == <<Len0, Want0, arr, lo, hi, want, pc, ret>>
-params == <<Len0, Want0>>
+VARIABLES Len0, Want0, Arr0,  \* parameters of the call: length, position, initial contents (never change)
+          arr, lo, hi, want, pc, ret,
+          perm,               \* ghost: perm[x] is the original position of the element now at x
+          lastq               \* ghost: the rearrangement performed by the last partition step
+vars == <<Len0, Want0, Arr0, arr, lo, hi, want, pc, ret, perm, lastq>>
+params == <<Len0, Want0, Arr0>>
 
 Assumptions ==
     /\ Len0 \in Nat
@@ -37,14 +39,15 @@ InWin(x) == lo <= x /\ x < hi
 
 Init ==
     /\ Assumptions
-    /\ arr \in [Idx -> Int]
+    /\ arr \in [Idx -> Int] /\ Arr0 = arr
+    /\ perm = [x \in Idx |-> x] /\ lastq = [x \in Idx |-> x]
     /\ lo = 0 /\ hi = Len0 /\ want = Want0 /\ pc = "run" /\ ret = 0
 
 (* `assert!(i < n)' at the entry of every level *)
 CheckRange ==
     /\ pc = "run" /\ want >= hi - lo
     /\ pc' = "panic"
-    /\ UNCHANGED <<arr, lo, hi, want, ret, params>>
+    /\ UNCHANGED <<arr, lo, hi, want, ret, params, perm, lastq>>
 
 Guarded == pc = "run" /\ want < hi - lo
 
@@ -52,27 +55,36 @@ Guarded == pc = "run" /\ want < hi - lo
 LenOneShortcut ==
     /\ Guarded /\ hi - lo = 1
     /\ ret' = arr[lo] /\ pc' = "done"
-    /\ UNCHANGED <<arr, lo, hi, want, params>>
+    /\ UNCHANGED <<arr, lo, hi, want, params, perm, lastq>>
 
 (* sort.rs:119: gen_range(0..0) *)
 EmptyRangePanic ==
     /\ Guarded /\ hi - lo = 0
     /\ pc' = "panic"
-    /\ UNCHANGED <<arr, lo, hi, want, ret, params>>
+    /\ UNCHANGED <<arr, lo, hi, want, ret, params, perm, lastq>>
 
-(* what partition_mut(p) on the window guarantees, k being the returned index relative to the window *)
-PartitionContract(a, b, k) ==
+(* what partition_mut(p) on the window guarantees, k being the returned index relative to the window: the new contents are *)
+(* the old ones rearranged by some q that is the identity outside the window, maps the window into itself and never maps    *)
+(* two positions to one (PartitionProof.PermInv for the window), with the arrangement around lo + k                          *)
+Rearranges(q, a, b) ==
+    /\ q \in [Idx -> Idx]
+    /\ \A x \in Idx : ~InWin(x) => q[x] = x
+    /\ \A y \in Idx : InWin(y) => InWin(q[y])
+    /\ \A x \in Idx : \A y \in Idx : x # y => q[x] # q[y]
+    /\ \A x \in Idx : b[x] = a[q[x]]
+PartitionContract(a, b, k, q) ==
     /\ b \in [Idx -> Int]
-    /\ \A x \in Idx : ~InWin(x) => b[x] = a[x]
-    /\ \A y \in Idx : InWin(y) => \E y0 \in Idx : InWin(y0) /\ b[y] = a[y0]
+    /\ Rearranges(q, a, b)
     /\ \A y \in Idx : (InWin(y) /\ y < lo + k) => b[y] < b[lo + k]
     /\ \A y \in Idx : (InWin(y) /\ y > lo + k) => b[y] >= b[lo + k]
 
 (* sort.rs:118-129, any pivot *)
 DrawAndPartition ==
     /\ Guarded /\ hi - lo >= 2
+    /\ lastq' \in [Idx -> Idx]
+    /\ perm' = [x \in Idx |-> perm[lastq'[x]]]
     /\ \E k \in 0 .. (hi - lo - 1) :
-          /\ PartitionContract(arr, arr', k)
+          /\ PartitionContract(arr, arr', k, lastq')
           /\ IF want < k
              THEN hi' = lo + k /\ UNCHANGED <<lo, want, ret, pc>>
              ELSE IF want = k
@@ -114,5 +126,13 @@ Post ==
         /\ \A x \in Idx : x < Want0 => arr[x] <= ret
         /\ \A x \in Idx : x > Want0 => ret <= arr[x]
 
-Inv == TypeOK /\ NoPanicInRange /\ OorInv /\ WantInv /\ SandwichInv /\ Post
+(* C03 for every length: the array is at all times a rearrangement of the original one *)
+PermInv ==
+    /\ Arr0 \in [Idx -> Int]
+    /\ perm \in [Idx -> Idx]
+    /\ \A x \in Idx : \A y \in Idx : x # y => perm[x] # perm[y]
+    /\ \A x \in Idx : arr[x] = Arr0[perm[x]]
+
+Core == TypeOK /\ NoPanicInRange /\ OorInv /\ WantInv /\ SandwichInv /\ Post
+Inv == Core /\ PermInv
 =============================================================================
